@@ -37,6 +37,7 @@ class World(SessionWorld):
         self.handlers = []
         self.pending_subs = {}  # request id -> H
         self.pending_unsubs = {}  # request id -> sid
+        self.unsub_futs = {}  # request id -> the future unsubscribe() returned
         self.model = {}  # sid -> [H] in subscription order (handlers currently attached)
         self.ever_held = set()
         self.router_subs = {}  # topic -> sid
@@ -134,11 +135,27 @@ class World(SessionWorld):
                 acts.append((2.0, "unsubscribe", self.op_unsubscribe))
         if self.pending_subs or self.pending_unsubs:
             acts.append((4.0, "router-reply", self.router_reply))
+        waiting = [r for r in self.pending_unsubs if self.unsub_futs.get(r) is not None]
+        if waiting and self.ops_left > 0:
+            acts.append((0.8, "app-gives-up-waiting", lambda: self.give_up_waiting(waiting)))
         if any(self.router_active.values()) or self.model:
             acts.append((4.0, "event", self.router_event))
         if self.ops_left > 0:
             acts.append((0.4, "event-never-held", self.router_event_unknown))
         return acts
+
+    def give_up_waiting(self, waiting):
+        """the application stops waiting for an UNSUBSCRIBED (a timeout around `await sub.unsubscribe()`, a cancelled
+        task): it cancels the pending result.  The router's reply still arrives later and must be harmless."""
+        rid = self.run.ch.pick(sorted(waiting), "which-wait")
+        f = self.unsub_futs.pop(rid)
+        self.ops_left -= 1
+        self.run.fault("unsubscribe-wait-cancelled")
+        try:
+            self.fw.call(self, self.fw.cancel_future, f)
+        except Exception as e:  # noqa
+            self.run.log("cancel-raised", type(e).__name__)
+        self.settle()
 
     def new_tok(self):
         self.tok += 1
@@ -220,11 +237,12 @@ class World(SessionWorld):
         if inside:
             self.run.probe("unsubscribe-inside-handler")
             self.dispatch_mutated = True
+        fut = None
         try:
             if inside:
-                h.sub.unsubscribe()
+                fut = h.sub.unsubscribe()
             else:
-                self.call(h.sub.unsubscribe)
+                fut = self.call(h.sub.unsubscribe)
         except Exception as e:  # noqa
             self.run.violate("C11.unsubscribe-on-last", "unsubscribe-raised:%s" % type(e).__name__, repr(e))
             return
@@ -238,6 +256,7 @@ class World(SessionWorld):
                 self.run.violate("C11.unsubscribe-on-last", "no-UNSUBSCRIBE-for-last-handler", "%d" % len(unsubs))
             else:
                 self.pending_unsubs[unsubs[0].request] = h.sid
+                self.unsub_futs[unsubs[0].request] = fut
                 self.router_active[h.sid] = False
                 for t, s in list(self.router_subs.items()):
                     if s == h.sid:
